@@ -6,12 +6,15 @@ sequences on a real tmpfs directory tree. The planner (c11_model.plan) merges
 histories that reach the same tree; every planned state is rebuilt by driving
 typhon through its shortest history on a real directory, snapshotted, and
 expanded by EVERY operation of the alphabet; each resulting tree is compared
-with the reference model. "cold" runs build fresh FileSet objects for every
+with the reference model. There are two alphabets, searched separately:
+"layout" (targets that rename) and "forms" (the other forms of writing, a
+target fileset with another handler, conversion in place, ...). "cold" runs build fresh FileSet objects for every
 operation; "warm" runs keep one long-lived set of FileSet objects (warm
 info_cache) over the whole history and must reach the same trees.
 Part 2 (c11_roundtrip): NetCDF4 / CSV round trips through FileSet.write/read.
 """
 import gzip
+import json
 import os
 import pickle
 import shutil
@@ -28,31 +31,55 @@ PROP = "C11"
 LEVEL = "model_checking"
 RULE = ("BFS part: state = directory tree (sorted (path, content) list); "
         "from each of 2 roots (empty tree; one file in each of 4 slots = 3 "
-        "periods x user placeholder) ALL sequences of <=3 (quick; warm <=2) / <=4 "
-        "(thorough, cold; warm <=3) operations of an alphabet of 62: 9 writes (4 slots "
-        "x 2 payloads, so overwrites occur, + one into a .gz fileset); 44 "
-        "moves/copies (5 targets [doy, added end fields, added user "
-        "placeholder, .gz, other base directory] x 4 selections [all, "
-        "period, filter, explicit files=] x {move, copy}, raw / convert=True "
-        "/ convert=callable, + 1 copy under a negated filter + 3 from the "
-        "targets back); 6 deletes by selection; 2 dry runs; 1 read-back of "
-        "every file through read, fs[s:e], fs[t] and collect. In the warm search "
+        "periods x user placeholder) ALL sequences of <=3 (quick; warm <=2) / "
+        "<=4 (thorough, cold; warm <=3) operations of each of two alphabets. "
+        "Alphabet 'layout' (62): 9 writes fs[s:e]=d (4 slots x 2 payloads, "
+        "so overwrites occur, + one into a .gz fileset); 44 moves/copies (5 "
+        "targets [doy, added end fields, added user placeholder, .gz, other "
+        "base directory] x 4 selections [all, period, filter, explicit "
+        "files=] x {move, copy}, raw / convert=True / convert=callable, + 1 "
+        "copy under a negated filter + 3 from the targets back); 6 deletes "
+        "by selection; 2 dry runs; 1 read-back of every file through read, "
+        "fs[s:e], fs[t] and collect. Alphabet 'forms' (25): 2 writes "
+        "fs[s:e]=d; 3 writes write(d, path string | FileInfo, tag=...) with a "
+        "per-call writer option that is stored in the file (one into the "
+        "JSON fileset whose own write_args must be merged with it); 1 write "
+        "fs[t]=d (a file whose period is an instant); 8 converting "
+        "moves/copies into a fileset OBJECT with another handler (pickle -> "
+        "JSON documents; the target has write_args, read_args and a "
+        "post_reader of its own, each of which shows in the tree or in what "
+        "is read) x {all, filter} x {move, copy} x {convert=True, callable}; "
+        "2 back (JSON -> pickle, target object); 2 conversions in place "
+        "(target template = source template, move and copy); 2 moves/copies "
+        "to a template without directories and 1 back; delete and dry run "
+        "with files= given as path strings; 1 delete in the JSON fileset; "
+        "the read-back. In the warm search the FileSet object returned by "
+        "every move/copy must find exactly the files of the target, and "
         "every state is expanded a second time after a read of every file "
         "with a per-call option (read(f, only=...), collect(read_args=...)) "
         "by all operations that read file contents (read-back, converting "
         "moves/copies), because such a read may leave traces in a long-lived "
         "FileSet object that no directory listing shows. Trees reached "
         "by several histories are merged; every (state, operation) is "
-        "executed on a real directory with fresh FileSet objects (cold) and, "
-        "to depth 3, with long-lived ones (warm). Round-trip part: NetCDF "
+        "executed on a real directory with fresh FileSet objects (cold) and "
+        "with long-lived ones (warm). Round-trip part: NetCDF "
         "principal variable dtype {i2,i4,i8,f4,f8,bool,str,datetime64,"
         "timedelta64} x {0,1,2}-d x NaN x placement {root, group, nested "
-        "group, group dimensions} x variable order x int16 packing (encoding "
-        "/ write_args) x suffix {nc, h5, nc.gz, nc.bz2, nc.zip, nc.xz} "
-        "(quick: all suffixes only for 1-d root variables), CSV tables x 5 "
-        "option sets x {csv,txt,asc} x 5 compressions, plus read_args / "
-        "post_reader cases. evaluations = executed transitions + round "
-        "trips; non-trivial = the operation touches a file while another "
+        "group, group dimensions, group coordinates, no root variable at "
+        "all} x variable order x int16 packing (encoding / write_args / "
+        "per-call arguments of write()) x suffix {nc, h5, nc.gz, nc.bz2, "
+        "nc.zip, nc.xz} (quick: all suffixes only for 1-d root variables) x "
+        "{fresh file, overwrite of a data set with other variables, groups, "
+        "dimension lengths and attributes}; every data set carries global "
+        "attributes {text, int, float, array} and variable/coordinate "
+        "attributes in root and groups, which must read back too. CSV "
+        "tables x 5 option sets x {csv,txt,asc} x 5 compressions x {fresh, "
+        "overwrite of a longer table with other columns}, plus read_args / "
+        "post_reader cases, plus filesets with compress=False, "
+        "decompress=False on the 4 compression suffixes (nc and csv). "
+        "evaluations = executed transitions + round "
+        "trips; non-trivial = the operation touches (selects, creates or "
+        "overwrites) a file while another "
         "file exists that it must leave alone, or the read-back has two "
         "files to tell apart (BFS) / the data set is not a bare 0-d root "
         "variable (round trips); cases are distinct by construction.")
@@ -60,11 +87,15 @@ ASSUMPTIONS = [
     "pool work inside move/delete/collect runs on a synchronous executor "
     "(typhon.files.fileset.ThreadPoolExecutor/ProcessPoolExecutor rebound); "
     "schedules are property C10's subject",
-    "a move without convert to a template with a compression suffix is a "
-    "plain rename and not enumerated; every selection of a move maps distinct "
-    "files to distinct target names",
-    "explicit files= lists are FileInfo objects returned by find()",
-    "an operation that selects no file may raise NoFilesError or do nothing",
+    "a move without convert to a template with a compression suffix or to a "
+    "fileset with another handler is a plain rename and not enumerated; "
+    "every selection of a move maps distinct files to distinct target names",
+    "explicit files= lists are FileInfo objects returned by find(); plain "
+    "path strings only for delete (move needs the times of a file)",
+    "fs[s:e] is only asked for s < e (find() rejects an empty period): the "
+    "file stored by fs[t] = d is read back through fs[t], read and collect",
+    "an operation that selects no file may raise NoFilesError or do nothing "
+    "(move then returns nothing that could be examined)",
     "snapshots restore files and directories, not time stamps",
 ] + roundtrip.ASSUMPTIONS
 
@@ -72,8 +103,13 @@ STATES_PER_SHARD = 40
 
 
 # ---------------------------------------------------------------------------
-# the user handler of the BFS filesets
+# the user handlers of the BFS filesets
 # ---------------------------------------------------------------------------
+
+def tagged(data, tag):
+    """`tag` is a per-call writing option: it is stored with the payload."""
+    return data if tag is None else dict(data, **{model.TAG: tag})
+
 
 def read_pickle(file_info, only=None):
     """`only` is a per-call reading option (as `fields` of the NetCDF4
@@ -85,9 +121,40 @@ def read_pickle(file_info, only=None):
     return data
 
 
-def write_pickle(data, file_info):
+def write_pickle(data, file_info, tag=None):
     with open(file_info.path, "wb") as f:
-        pickle.dump(data, f)
+        pickle.dump(tagged(data, tag), f)
+
+
+# The JSON fileset needs all three of its own options to give a payload back:
+# write_args (fmt=JSON_FMT, checked by Tree.listing), read_args (key="items",
+# without it the reader returns the whole document) and the post_reader (the
+# list of items becomes a dict again).
+JSON_FMT = 2
+
+
+def json_options():
+    from typhon.files import FileHandler
+    return dict(handler=FileHandler(reader=read_json, writer=write_json),
+                write_args={"fmt": JSON_FMT}, read_args={"key": "items"},
+                post_reader=items_to_payload)
+
+
+def read_json(file_info, key=None, only=None):
+    with open(file_info.path) as f:
+        doc = json.load(f)
+    if key is None:
+        return doc
+    return [kv for kv in doc[key] if only is None or kv[0] == only]
+
+
+def write_json(data, file_info, fmt=1, tag=None):
+    with open(file_info.path, "w") as f:
+        json.dump({"fmt": fmt, "items": sorted(tagged(data, tag).items())}, f)
+
+
+def items_to_payload(file_info, items):
+    return dict(items)
 
 
 # ---------------------------------------------------------------------------
@@ -132,9 +199,10 @@ class Tree:
                 fh.write(b)
 
     def listing(self):
-        """relative path -> repr of the decoded content. A name with a .gz
-        suffix must hold a gzip stream and vice versa, otherwise the entry
-        says so."""
+        """relative path -> repr of the decoded content (.json: a document
+        written with the fileset's write_args, otherwise a pickle). A name
+        with a .gz suffix must hold a gzip stream and vice versa, otherwise
+        the entry says so."""
         out = {}
         for d, _, names in os.walk(self.root):
             for n in names:
@@ -147,9 +215,15 @@ class Tree:
                         "compression does not match the suffix"
                     continue
                 try:
-                    obj = pickle.loads(gzip.decompress(raw) if zipped
-                                       else raw)
-                    text = repr(sorted(obj.items()))
+                    if n.endswith(".json"):
+                        doc = json.loads(raw)
+                        text = repr(sorted(map(tuple, doc["items"]))) \
+                            if doc["fmt"] == JSON_FMT else \
+                            "fmt=%r: write_args not applied" % doc["fmt"]
+                    else:
+                        obj = pickle.loads(gzip.decompress(raw) if zipped
+                                           else raw)
+                        text = repr(sorted(obj.items()))
                 except Exception as exc:
                     text = "undecodable: %s" % type(exc).__name__
                 out[os.path.relpath(p, self.root)] = text
@@ -161,22 +235,26 @@ class Tree:
 
 class FileSets(dict):
     """fsid -> FileSet object, made on first use: built from scratch, or a
-    copy of the long-lived object of that fileset (warm runs)."""
+    copy of the long-lived object of that fileset (warm runs). `returned` is
+    what the last move() returned."""
 
     def __init__(self, tree, long_lived=None):
         dict.__init__(self)
         self.tree, self.long_lived = tree, long_lived
+        self.returned = None
 
     def __missing__(self, fsid):
         if self.long_lived is not None:
             fs = self.long_lived[fsid].copy()
         else:
             from typhon.files import FileHandler, FileSet
+            options = json_options() if model.FORMAT[fsid] == "json" else \
+                dict(handler=FileHandler(reader=read_pickle,
+                                         writer=write_pickle))
             fs = FileSet(
                 os.path.join(self.tree.root, model.FILESETS[fsid]),
-                handler=FileHandler(reader=read_pickle, writer=write_pickle),
                 name=fsid, temp_dir=self.tree.tmp,
-                placeholder=model.DEFAULTS.get(fsid))
+                placeholder=model.DEFAULTS.get(fsid), **options)
         self[fsid] = fs
         return fs
 
@@ -185,7 +263,8 @@ class FileSets(dict):
 # executing one operation through typhon
 # ---------------------------------------------------------------------------
 
-KIND = {"w": "write", "del": "delete", "rb": "read", "rbo": "read"}
+KIND = {"w": "write", "wo": "write", "wt": "write", "del": "delete",
+        "rb": "read", "rbo": "read"}
 
 # Reading with a per-call option leaves the directory alone but may leave
 # traces in a long-lived FileSet object. The warm search therefore expands
@@ -194,8 +273,8 @@ KIND = {"w": "write", "del": "delete", "rb": "read", "rbo": "read"}
 OPTION_READ = ("rbo",)
 
 
-def reading_ops():
-    return [op for op in model.ops()
+def reading_ops(alphabet):
+    return [op for op in model.ops(alphabet)
             if op[0] == "rb" or (op[0] == "mv" and op[5] != "raw")]
 
 
@@ -217,6 +296,8 @@ def selection_kwargs(tree, fs, sel, chosen):
     if sel == "nfilter":
         return dict(filters={"!sat": "A"})
     wanted = {os.path.join(tree.root, p) for p in chosen}
+    if sel == "paths":
+        return dict(files=sorted(wanted))
     return dict(files=[f for f in fs.find(no_files_error=False)
                        if f.path in wanted])
 
@@ -226,8 +307,8 @@ def execute(tree, fss, op, state, chosen):
     call itself did wrong (exceptions, values read back). The tree is judged
     by the caller."""
     from typhon.files.fileset import NoFilesError
-    api = {"w": "write", "del": "delete", "mv": "move", "rb": "read",
-           "rbo": "read"}[op[0]]
+    from typhon.files.handlers.common import FileInfo
+    api = "move" if op[0] == "mv" else KIND[op[0]]
     try:
         with controlled():
             if op[0] == "w":
@@ -235,6 +316,20 @@ def execute(tree, fss, op, state, chosen):
                 (t0, t1), sat = model.PERIODS[model.SLOTS[si][0]], \
                     model.SLOTS[si][1]
                 fss[fsid][t0:t1, {"sat": sat}] = dict(model.PAYLOADS[pi])
+            elif op[0] == "wo":
+                _, fsid, si, pi, how = op
+                (t0, t1), sat = model.PERIODS[model.SLOTS[si][0]], \
+                    model.SLOTS[si][1]
+                path = os.path.join(tree.root,
+                                    model.name_of(fsid, model.SLOTS[si]))
+                if how == "info":
+                    path = FileInfo(path, [t0, t1], {"sat": sat})
+                fss[fsid].write(dict(model.PAYLOADS[pi]), path, tag=1)
+            elif op[0] == "wt":
+                _, fsid, pi = op
+                (t0, _), sat = model.PERIODS[model.INSTANT[0]], \
+                    model.INSTANT[1]
+                fss[fsid][t0, {"sat": sat}] = dict(model.PAYLOADS[pi])
             elif op[0] == "del":
                 _, fsid, sel, dry = op
                 fs = fss[fsid]
@@ -243,18 +338,19 @@ def execute(tree, fss, op, state, chosen):
             elif op[0] == "mv":
                 _, src, dst, sel, copy, conv = op
                 fs = fss[src]
-                target = fss[dst] if dst in model.OBJECT_TARGETS else \
+                target = fss[dst] if model.target_is_object(src, dst) else \
                     os.path.join(tree.root, model.FILESETS[dst])
                 convert = {"raw": None, "conv": True,
                            "call": model.convert_payload}[conv]
-                fs.move(target, convert=convert, copy=copy,
-                        **selection_kwargs(tree, fs, sel, chosen))
+                fss.returned = fs.move(
+                    target, convert=convert, copy=copy,
+                    **selection_kwargs(tree, fs, sel, chosen))
             elif op[0] == "rbo":
                 return read_with_option(tree, fss, state)
             else:
                 return read_back(tree, fss, state)
     except NoFilesError as exc:
-        if chosen or op[0] in ("w", "rb"):
+        if chosen or op[0] not in ("mv", "del"):
             return ("exception/%s/NoFilesError" % api, "files %r" % chosen,
                     repr(exc)[:200])
     except Exception as exc:
@@ -281,9 +377,11 @@ def read_back(tree, fss, state):
             return ("read/collect-mismatch", want, got)
         for p, f in mine.items():
             (t0, t1), sat = model.PERIODS[f.slot[0]], f.slot[1]
-            apis = (("read", lambda: fs.read(os.path.join(tree.root, p))),
-                    ("getitem-slice", lambda: fs[t0:t1, {"sat": sat}]),
-                    ("getitem-time", lambda: fs[t0, {"sat": sat}]))
+            apis = [("read", lambda: fs.read(os.path.join(tree.root, p))),
+                    ("getitem-time", lambda: fs[t0, {"sat": sat}])]
+            if t0 < t1:
+                apis.append(("getitem-slice",
+                             lambda: fs[t0:t1, {"sat": sat}]))
             for name, call in apis:
                 want = [f.content] if name == "getitem-slice" else f.content
                 got = call()
@@ -343,6 +441,11 @@ def judge_tree(op, state, new, chosen, observed):
     kept = sorted(p for p in chosen if p not in exp_p and p in obs_p)
     if kept:
         return ("move/original-kept", "absent", kept)
+    in_place = sorted(p for p in chosen if p not in obs_p
+                      and model.name_of(op[2], state[p].slot) == p)
+    if in_place and kind == "move":
+        return ("move/file-converted-in-place-is-removed", "present",
+                in_place)
     lost = sorted(p for p in chosen if p in exp_p and p not in obs_p)
     if lost:
         return ("copy/original-removed", "present", lost)
@@ -352,6 +455,24 @@ def judge_tree(op, state, new, chosen, observed):
     diff = sorted(p for p in exp_p if expected[p] != observed[p])
     return ("%s/wrong-content[%s]" % (kind, op[5]),
             {p: expected[p] for p in diff}, {p: observed[p] for p in diff})
+
+
+def judge_returned(tree, fss, op, new, chosen):
+    """The FileSet object move() returns holds the files of the target
+    (nothing is returned by a move that raised the tolerated NoFilesError)."""
+    want = sorted(p for p, f in new.items() if f.fsid == op[2])
+    if fss.returned is None and not chosen:
+        return None
+    try:
+        with controlled():
+            got = sorted(os.path.relpath(f.path, tree.root) for f in
+                         fss.returned.find(no_files_error=False))
+    except Exception as exc:
+        return ("exception/find-on-returned-fileset/%s" % type(exc).__name__,
+                want, repr(exc)[:300])
+    if got != want:
+        return ("move/returned-fileset-does-not-find-the-files", want, got)
+    return None
 
 
 # ---------------------------------------------------------------------------
@@ -398,23 +519,27 @@ class Explorer:
         observed = tree.listing()
         if bad is None:
             bad = judge_tree(op, state, new, chosen, observed)
+        # looking at the returned object costs a find(): warm runs only
+        if bad is None and op[0] == "mv" and self.mode == "warm":
+            bad = judge_returned(tree, fss, op, new, chosen)
         return bad, observed, chosen, new
 
 
-def nontrivial(op, state, chosen):
-    """The operation touches a file while another file exists that it must
-    leave alone (for the read-back: it has two files to tell apart)."""
+def nontrivial(op, state, chosen, new):
+    """The operation touches a file (selects, creates or overwrites it) while
+    another file exists that it must leave alone (for the read-back: it has
+    two files to tell apart)."""
     if op[0] == "rb":
         return len(state) >= 2
-    touched = {model.name_of(op[1], model.SLOTS[op[2]])} if op[0] == "w" \
-        else set(chosen)
+    touched = set(chosen) | {p for p, f in new.items()
+                             if state.get(p) is not f}
     return bool(touched) and bool(set(state) - touched)
 
 
 def run_bfs_shard(shard):
-    _, tier, mode, root, histories = shard
+    _, tier, mode, root, alphabet_name, histories = shard
     res = driver.ShardResult()
-    alphabet = model.ops()
+    alphabet = model.ops(alphabet_name)
     ex = Explorer(mode, root)
     last = None
     try:
@@ -427,12 +552,15 @@ def run_bfs_shard(shard):
             state, warm = built
             snap = ex.tree.snapshot()
             res.add("trees", driver.h64(sorted(ex.tree.listing().items())))
+            plain = {}
             for op in alphabet:
-                bad, observed, chosen, _ = ex.transition(snap, state, warm,
-                                                         op)
-                res.case(nontrivial=nontrivial(op, state, chosen))
+                bad, observed, chosen, new = ex.transition(snap, state, warm,
+                                                           op)
+                plain[op] = bad and bad[0]
+                res.case(nontrivial=nontrivial(op, state, chosen, new))
                 res.count("transitions")
                 res.count("transitions_" + mode)
+                res.count("transitions_alphabet_" + alphabet_name)
                 res.add("trees", driver.h64(sorted(observed.items())))
                 last = (history, op, observed)
                 if bad is not None:
@@ -446,13 +574,14 @@ def run_bfs_shard(shard):
                                   "%s %s" % (mode, op_kind(op)))
             if mode != "warm":
                 continue
-            for op in reading_ops():
-                bad, observed, chosen, _ = ex.transition(
+            for op in reading_ops(alphabet_name):
+                bad, observed, chosen, new = ex.transition(
                     snap, state, warm, op, after_option_read=True)
-                res.case(nontrivial=nontrivial(op, state, chosen))
+                res.case(nontrivial=nontrivial(op, state, chosen, new))
                 res.count("transitions")
                 res.count("transitions_warm_after_option_read")
-                if bad is not None:
+                # what goes wrong without the read as well is reported there
+                if bad is not None and bad[0] != plain[op]:
                     case = dict(part="bfs", tier=tier, mode=mode, root=root,
                                 history=[list(o) for o in history],
                                 op=list(op), after_option_read=True)
@@ -477,14 +606,15 @@ def bfs_shards(tier):
     runs = [("cold", 3), ("warm", 2)] if tier == "quick" else \
         [("cold", 4), ("warm", 3)]
     out = []
-    for mode, depth in runs:
-        by_root = {}
-        for root, history in model.plan(depth):
-            by_root.setdefault(root, []).append(history)
-        for root, hs in by_root.items():
-            for i in range(0, len(hs), STATES_PER_SHARD):
-                out.append(("bfs", tier, mode, root,
-                            hs[i:i + STATES_PER_SHARD]))
+    for alphabet in ("layout", "forms"):
+        for mode, depth in runs:
+            by_root = {}
+            for root, history in model.plan(depth, alphabet):
+                by_root.setdefault(root, []).append(history)
+            for root, hs in by_root.items():
+                for i in range(0, len(hs), STATES_PER_SHARD):
+                    out.append(("bfs", tier, mode, root, alphabet,
+                                hs[i:i + STATES_PER_SHARD]))
     return out
 
 
